@@ -81,6 +81,14 @@ def run(ctx, rep, tier):
               f"phases run as {order}, expected {want}: explicit -f/-fno- settings must override the level, implications and exclusions must see the final explicit values")
     rep.check(body and phases and phases[0][0] == "reset" and body.index(phases[0][1]) == 0, "C19.a", LCF, "reset is the first effect", "_reset_flags is not the first statement")
     ph = dict(phases)
+    # C19.k (seed C19-14): every explicit setting is applied - the override loop stores unconditionally, whatever the value
+    rep.rule("C19.k", "explicit -f / -fno- settings override the level: the override loop stores every (flag, value) pair, unconditionally")
+    if "override" in ph:
+        st = ph["override"]
+        tn = [ast.unparse(e) for e in st.target.elts] if isinstance(st.target, ast.Tuple) and len(st.target.elts) == 2 else None
+        ok = tn is not None and len(st.body) == 1 and isinstance(st.body[0], ast.Assign) and ast.unparse(st.body[0].targets[0]) == f"cls._flags[{tn[0]}]" and ast.unparse(st.body[0].value) == tn[1] and not st.orelse
+        rep.check(ok, "C19.k", LCF, "for flag, value in overrides: flags[flag] = value", f"the override loop is `{ast.unparse(st)[:140]}`: some explicit settings are not applied "
+                  "(e.g. skipped when equal to the flag's declared default - `-O2 -fno-collapse-transition-ranges` keeps the optimisation the level switched on)")
     # ------------------------------------------------------------------ C19.b levels cumulative
     rep.rule("C19.b", "levels are cumulative: range(level + 1) over _OPTIMIZE_LEVELS, disjoint level sets, every level flag switched on")
     if "level" in ph:
